@@ -50,6 +50,7 @@ type Request struct {
 	Size     uint64
 	Root     []byte
 	Branch   int
+	NoHonest bool // an honest probe was asked for but no branch contains the stored checkpoint
 	SigValid int // 1 valid log signature+origin by construction, 0 invalid, -1 not known
 	Desc     string
 }
@@ -95,11 +96,30 @@ func resolveUpdate(w *World, op Op, st Stored) *Request {
 	default: // rel
 		r.Size = satAdd(cur, op.D)
 	}
+	if r.Size > 1<<63 && op.B == -1 {
+		r.NoHonest = true // beyond what the reference tree can compute: not an honest probe
+	}
 	if r.Size > 1<<63 && op.M != "garbage_root" {
 		// the reference tree computes roots up to 2^63 leaves; beyond that only garbage roots
 		op.M = "garbage_root"
 	}
 	b := op.B
+	if b == -1 {
+		// "the log whose history contains the witnessed checkpoint": the first branch that has the stored root at the stored size
+		b = 0
+		if st.Has && !st.Bad {
+			if bs := w.BranchesWithRoot(op.L, st.Size, st.Root); len(bs) > 0 {
+				b = bs[0]
+			} else {
+				b = -2
+			}
+		}
+	}
+	if b == -2 {
+		// no honest log contains the witnessed checkpoint (garbage root): there is no honest probe; submit the trunk
+		b = 0
+		r.NoHonest = true
+	}
 	if b < 0 || b >= len(ld.Branches) {
 		b = 0
 	}
